@@ -48,7 +48,7 @@ theorem groupBuckets_perm_aux (n : Int) (ps : List Proc) (acc : List (Int × Lis
     simp only [List.foldl_cons]
     refine (ih _).trans ?_
     refine (List.Perm.append_left ps (addToBucket_perm _ p acc)).trans ?_
-    simpa using List.perm_middle
+    exact List.perm_middle
 
 theorem groupBuckets_perm (n : Int) (ps : List Proc) : (flatB (groupBuckets n ps)).Perm ps := by
   have := groupBuckets_perm_aux n ps []
@@ -420,6 +420,90 @@ theorem mem_rot {α} {i : Nat} {l : List α} {x : α} : x ∈ rot i l ↔ x ∈ 
     rcases List.mem_append.mp this with h | h
     · exact List.mem_append_right _ h
     · exact List.mem_append_left _ h
+
+/-! ### the fuel of the two cyclic loops is only a termination device -/
+
+theorem sweep1_need_le : ∀ (rest : List (List Proc)) (idx : Nat) (st : St), (sweep1 rest idx st).1.need ≤ st.need
+  | [], _, st => by simp [sweep1]
+  | b :: bs, idx, st => by
+    unfold sweep1
+    split
+    · exact Int.le_refl _
+    · split
+      · rename_i x y _
+        have := sweep1_need_le bs (idx + 1) { need := st.need - 2, out := st.out ++ [x, y] }
+        simp only at this
+        omega
+      · exact sweep1_need_le bs (idx + 1) st
+
+/-- the fuel of `pass1` is only a termination device: any amount ≥ `needCPUs` gives the same result
+    (`policy` supplies `k.toNat + 1`), i.e. the `fuel = 0` branch is never the one that stops the loop. -/
+theorem pass1_fuel_irrelevant (bs : List (List Proc)) :
+    ∀ (f₁ f₂ : Nat) (st : St), st.need.toNat ≤ f₁ → st.need.toNat ≤ f₂ → pass1 bs f₁ st = pass1 bs f₂ st
+  | 0, 0, _, _, _ => rfl
+  | 0, g + 1, st, h1, _ => by
+    have : st.need ≤ 1 := by omega
+    simp [pass1, this]
+  | f + 1, 0, st, _, h2 => by
+    have : st.need ≤ 1 := by omega
+    simp [pass1, this]
+  | f + 1, g + 1, st, h1, h2 => by
+    unfold pass1
+    split
+    · rfl
+    · rename_i hneed
+      have hle := sweep1_need_le bs 0 st
+      generalize sweep1 bs 0 st = r at hle
+      obtain ⟨st', o⟩ := r
+      cases o with
+      | some idx => rfl
+      | none =>
+        simp only at hle ⊢
+        split
+        · rfl
+        · rename_i hne
+          have hne' : st'.need ≠ st.need := by simpa using hne
+          exact pass1_fuel_irrelevant bs f g st' (by omega) (by omega)
+
+theorem pass2_fuel_irrelevant (bs : List (List Proc)) :
+    ∀ (f₁ f₂ : Nat) (st : St), st.need.toNat ≤ f₁ → st.need.toNat ≤ f₂ → pass2 bs f₁ st = pass2 bs f₂ st
+  | 0, 0, _, _, _ => rfl
+  | 0, g + 1, st, h1, _ => by
+    have : st.need ≤ 0 := by omega
+    simp [pass2, this]
+  | f + 1, 0, st, _, h2 => by
+    have : st.need ≤ 0 := by omega
+    simp [pass2, this]
+  | f + 1, g + 1, st, h1, h2 => by
+    unfold pass2
+    split
+    · rfl
+    · rename_i hneed
+      have hle := sweep2_need_le bs st
+      simp only
+      split
+      · rfl
+      · rename_i hne
+        have hne' : (sweep2 bs st).need ≠ st.need := by simpa using hne
+        exact pass2_fuel_irrelevant bs f g _ (by omega) (by omega)
+
+theorem pass1_need_le (bs : List (List Proc)) : ∀ (fuel : Nat) (st : St), (pass1 bs fuel st).1.need ≤ st.need
+  | 0, st => by simp [pass1]
+  | fuel + 1, st => by
+    unfold pass1
+    split
+    · exact Int.le_refl _
+    · have hle := sweep1_need_le bs 0 st
+      generalize sweep1 bs 0 st = r at hle
+      obtain ⟨st', o⟩ := r
+      cases o with
+      | some idx => exact hle
+      | none =>
+        simp only at hle ⊢
+        split
+        · exact hle
+        · have := pass1_need_le bs fuel st'
+          omega
 
 /-! ### the selection as a whole -/
 
